@@ -666,8 +666,8 @@ class NP:
             data = _tolist(x)
             if isinstance(data, list) and len(data) == 2 and all(
                 isinstance(r, list) and len(r) == 2 and not isinstance(r[0], list) for r in data
-            ) and dtype in ("float64", float) and getattr(NP, "_mat2_mode", False):
-                return Mat2(data)
+            ) and dtype in ("float64", float):
+                return Mat2(data)  # decompose_rws builds its 2x2 linear part this way
             if dtype is None:
                 flat = SymArray(data)._flat() if isinstance(data, list) else [data]
                 dtype = "int64" if all(isinstance(v, (int, SymInt)) and not isinstance(v, bool) for v in flat) else "float64"
